@@ -14,39 +14,47 @@
 (* their length to inner checks (what the pinned tree did before the fix).  *)
 EXTENDS Naturals, Sequences, FiniteSets, TLC, Json
 
-CONSTANTS MaxDepth, Lens, Deviations
+CONSTANTS MaxDepth, Lens, Deviations, MaxSiblings
 
 Kinds == {"for", "tablerow", "incfor", "renderfor", "render", "include", "call"}
 Repeats(k) == k \in {"for", "tablerow", "incfor", "renderfor"}
 Copies(k) == k \in {"renderfor", "render", "call"}          \* RenderContext.copy(carry_loop_iterations=True)
 UsesInclude(k) == k \in {"incfor", "include"}
 
-Construct == [k : Kinds, n : Lens]
-LenOK(c) == IF Repeats(c.k) THEN TRUE ELSE c.n = 1          \* single render/include/call execute once
+(* a level is a construct plus, optionally, a leaf sibling construct (sk, sn) that runs in the level's *)
+(* body BEFORE the next level: its own body emits the mark "y"                                        *)
+SibKinds == {"none", "for", "tablerow", "incfor", "renderfor"}
+Construct == [k : Kinds, n : Lens, sk : SibKinds, sn : {0, 2}]
+LenOK(c) == /\ (IF Repeats(c.k) THEN TRUE ELSE c.n = 1)      \* single render/include/call execute once
+            /\ (c.sk = "none" => c.sn = 0)
 
 RECURSIVE Product(_)
 Product(s) == IF s = <<>> THEN 1 ELSE Head(s) * Product(Tail(s))
 
 (* include is a disabled tag inside render / call: keep those programs out of the family *)
-WellFormed(p) == \A i, j \in 1..Len(p) : (i < j /\ Copies(p[i].k)) => ~UsesInclude(p[j].k)
+WellFormed(p) == /\ \A i, j \in 1..Len(p) : (i < j /\ Copies(p[i].k)) => ~UsesInclude(p[j].k)
+                 /\ \A i, j \in 1..Len(p) : (i <= j /\ Copies(p[i].k)) => p[j].sk # "incfor"
+                 /\ Cardinality({i \in 1..Len(p) : p[i].sk # "none"}) <= MaxSiblings
 
 Progs == UNION { { p \in [1..d -> Construct] : (\A i \in 1..d : LenOK(p[i])) /\ WellFormed(p) } : d \in 1..MaxDepth }
 
 (* limits worth trying for a program: both sides of every prefix product *)
 PrefixProducts(p) == { Product([i \in 1..d |-> p[i].n]) : d \in 1..Len(p) }
+                       \cup { Product([i \in 1..d |-> p[i].n]) * p[d].sn : d \in 1..Len(p) }
 LimitsFor(p) == { n \in UNION { {q - 1, q, q + 1} : q \in PrefixProducts(p) } : n >= 1 }
 
 VARIABLES prog, N,        \* the input, fixed in Init
           d,              \* constructs entered so far
           nest,           \* ghost: lengths of all enclosing repeating constructs
           ctxs,           \* mechanism: stack of contexts [loops, carry]
-          status, bodies
-vars == <<prog, N, d, nest, ctxs, status, bodies>>
+          sibdone,        \* the sibling of level d has been executed
+          status, bodies, ybodies
+vars == <<prog, N, d, nest, ctxs, sibdone, status, bodies, ybodies>>
 
 Init == /\ prog \in Progs
         /\ N \in LimitsFor(prog)
         /\ d = 0 /\ nest = <<>> /\ ctxs = <<[loops |-> <<>>, carry |-> 1]>>
-        /\ status = "running" /\ bodies = 0
+        /\ status = "running" /\ bodies = 0 /\ ybodies = 0 /\ sibdone = TRUE
 
 Top == ctxs[Len(ctxs)]
 MechProduct(c) == Product(c.loops) * c.carry                 \* what raise_for_loop_limit multiplies
@@ -57,8 +65,21 @@ MechRaises(len) == MechProduct(Top) * len > N
 (* the required answer, on ghost truth *)
 MustRaise(len) == Product(nest) * len > N
 
+(* the leaf sibling of the level just entered: checks the limit, repeats its body, and leaves *)
+(* the context exactly as it found it (RestoredAfterSibling)                                 *)
+Sibling ==
+  /\ status = "running" /\ d >= 1 /\ ~sibdone
+  /\ LET c == prog[d]
+     IN IF c.sk = "none" THEN UNCHANGED <<status, ybodies>>
+        ELSE IF MechProduct(Top) * c.sn > N
+        THEN status' = "LoopIterationLimitError" /\ UNCHANGED ybodies
+        ELSE ybodies' = ybodies + Product(nest) * c.sn /\ UNCHANGED status
+  /\ sibdone' = TRUE
+  /\ UNCHANGED <<prog, N, d, nest, ctxs, bodies>>
+
 Enter ==
-  /\ status = "running" /\ d < Len(prog)
+  /\ status = "running" /\ d < Len(prog) /\ sibdone
+  /\ sibdone' = FALSE /\ UNCHANGED ybodies
   /\ LET c == prog[d + 1]
          contributes == c.k \notin Deviations
      IN /\ d' = d + 1
@@ -84,12 +105,12 @@ Enter ==
   /\ UNCHANGED <<prog, N>>
 
 Body ==
-  /\ status = "running" /\ d = Len(prog)
+  /\ status = "running" /\ d = Len(prog) /\ sibdone
   /\ bodies' = Product(nest)       \* every enclosing construct repeats the innermost block
   /\ status' = "ok"
-  /\ UNCHANGED <<prog, N, d, nest, ctxs>>
+  /\ UNCHANGED <<prog, N, d, nest, ctxs, sibdone, ybodies>>
 
-Next == Enter \/ Body
+Next == Enter \/ Sibling \/ Body
 Spec == Init /\ [][Next]_vars
 
 -----------------------------------------------------------------------------
@@ -100,12 +121,13 @@ LoopLimit == (status = "ok" /\ bodies > 0) => Product(nest) <= N
 (* a nest whose lengths multiply to more than N raises *)
 OverLimitRaises ==
   (status # "running" /\ \E k \in 1..Len(prog) :
-       /\ Product([i \in 1..k |-> prog[i].n]) > N
+       /\ \/ Product([i \in 1..k |-> prog[i].n]) > N
+          \/ Product([i \in 1..k |-> prog[i].n]) * prog[k].sn > N
        /\ \A i \in 1..k : prog[i].n >= 1)
     => status = "LoopIterationLimitError"
 RaisesOnlyOverLimit ==
-  status = "LoopIterationLimitError" => Product(nest) * prog[d].n > N
+  status = "LoopIterationLimitError" => (Product(nest) * prog[d].n > N \/ Product(nest) * prog[d].sn > N)
 
 Emit == status \notin {"running"} =>
-          PrintT(ToJson([prog |-> prog, N |-> N, status |-> status, bodies |-> bodies]))
+          PrintT(ToJson([prog |-> prog, N |-> N, status |-> status, bodies |-> bodies, ybodies |-> ybodies]))
 =============================================================================
